@@ -183,10 +183,15 @@ def level2_configs(tier):
         cfgs.append(dict(KR=6, KQ=6, NS=2, rev=False, shapes=["PPRRP", "PQPRP"], sj="0", distinct_shapes=True))
         # a 4-pair segment against one with an unpaired label inside the overlap (different numbers of unpaired positions before the cut)
         cfgs.append(dict(KR=6, KQ=6, NS=2, rev=True, shapes=[], sj="0", shapes_per_segment=[["PPPP"], ["PQPP", "PRPP", "PPQP", "PPRP"]]))
+        # reverse strand: an unpaired query label inside the earlier segment next to the overlap
+        cfgs.append(dict(KR=5, KQ=5, NS=2, rev=True, shapes=[], sj="0", shapes_per_segment=[["PQP", "PQPP", "PPQP"], ["PP", "PPP"]]))
     else:
         for rev in (False, True):
             cfgs.append(dict(KR=4, KQ=4, NS=2, rev=rev, shapes=SHAPES_THOROUGH, sj="0"))
             cfgs.append(dict(KR=4, KQ=3, NS=3, rev=rev, shapes=SHAPES_QUICK, sj="0"))
+            cfgs.append(dict(KR=6, KQ=6, NS=2, rev=rev, shapes=["PPPP", "PPRRP", "PQPRP", "PRPQP", "PPQQP"], sj="0"))
+            cfgs.append(dict(KR=5, KQ=5, NS=2, rev=rev, shapes=[], sj="0",
+                             shapes_per_segment=[["PQP", "PRP", "PQPP", "PPQP", "PRPP", "PPRP"], ["PP", "PPP", "PQP", "PRP"]]))
         cfgs.append(dict(KR=4, KQ=4, NS=3, rev=False, shapes=["P", "PP", "PQP", "PRP"], sj="0", dp="1/2"))
     return cfgs
 
